@@ -400,6 +400,19 @@ func (r *mRunner) settle(max int) bool {
 	return false
 }
 
+// park lets every waiting call through WITHOUT advancing the clock until nothing
+// waits: every handler then sits in a `select` (timer or export result) and
+// notices a stop signal on its own. Needed before Manager.Stop with several
+// pipelines: it stops them one after the other while holding the manager mutex,
+// and the exit path of an already stopped handler blocks on that mutex, which
+// synctest does not count as durably blocked.
+func (r *mRunner) park() {
+	for i := 0; i < 5000 && r.waiting() > 0; i++ {
+		progress.Add(1)
+		r.releaseOne()
+	}
+}
+
 func (r *mRunner) exec(a mAction) mEvent {
 	progress.Add(1)
 	ev := mEvent{mAction: a}
@@ -453,6 +466,7 @@ func (r *mRunner) exec(a mAction) mEvent {
 	case "sync":
 		needUp(func() error { return mgr.VerifSync(ctx) })
 	case "mgrStop":
+		r.park()
 		needUp(func() error { return mgr.Stop(ctx) })
 		if ev.Res == "ok" {
 			r.mgrUp = false
@@ -501,6 +515,10 @@ func (r *mRunner) exec(a mAction) mEvent {
 }
 
 func (r *mRunner) cleanup() {
+	r.w.mu.Lock()
+	r.w.ev = &mEvent{}
+	r.w.mu.Unlock()
+	r.park()
 	if r.mgrUp {
 		mgr, ctx := r.mgr, r.ctx
 		r.op(func() error { return mgr.Stop(ctx) })
